@@ -97,6 +97,23 @@ func cmdSelftest(args []string) int {
 			}
 			o, _ := run(self, "check", "--property", m.property, "--tier", tier, "--repo", work, "--out", out)
 			okAll := true
+			if len(m.expect) == 1 && m.expect[0] == "quiet" {
+				// a behaviour-preserving change: the check must stay silent
+				if strings.Contains(o, "VIOLATION") || strings.Contains(o, "MACHINERY-ERROR") {
+					fmt.Printf("SELFTEST-FALSE-ALARM %s (%s)\n", filepath.Base(f), m.property)
+					bad++
+					lines := strings.Split(strings.TrimSpace(o), "\n")
+					if len(lines) > 6 {
+						lines = lines[len(lines)-6:]
+					}
+					fmt.Println("   ", strings.Join(lines, "\n    "))
+				} else {
+					fmt.Printf("SELFTEST-OK %s (%s, quiet)\n", filepath.Base(f), m.property)
+				}
+				run("git", "-C", "/repo", "worktree", "remove", "--force", work)
+				os.RemoveAll(scratch)
+				continue
+			}
 			for _, e := range m.expect {
 				found := false
 				for _, ln := range strings.Split(o, "\n") {
